@@ -13,6 +13,7 @@ package main
 // Observation of req: the shared call log of that request + "->ok" | "->err<i>" | "->errother" | "->panic"; other ops: nil.
 
 import (
+	"context"
 	"errors"
 	"fmt"
 	"io"
@@ -129,6 +130,11 @@ func c18Run(line string) string {
 	for _, i := range c18Ids(cfg["fail"]) {
 		failing[i] = true
 	}
+	nestID := -1
+	if n, err := strconv.Atoi(cfg["nest"]); err == nil {
+		nestID = n
+	}
+	var current *network.SimpleHTTPDef // the instance the request being issued goes through
 	const nIcpt = 8
 	icpts := make([]*network.Interceptor, nIcpt)
 	errs := make([]error, nIcpt)
@@ -143,6 +149,10 @@ func c18Run(line string) string {
 		f := network.Interceptor(func(r *http.Request) error {
 			log = append(log, "i"+strconv.Itoa(i)+":"+strings.Join(r.Header["X-Trace"], "."))
 			r.Header.Add("X-Trace", strconv.Itoa(i))
+			if i == nestID && current != nil && r.URL.Path != "/nested" {
+				// (nest=<i>) a request of its own through the SAME SimpleHTTP while the outer one is in flight (a token refresh, say)
+				current.Get("http://stub.test/nested")
+			}
 			if failing[i] {
 				return errs[i]
 			}
@@ -254,6 +264,8 @@ func c18Run(line string) string {
 			return "nil"
 		case len(f) == 2 && f[0] == "req":
 			log = log[:0]
+			current = sh
+			defer func() { current = nil }()
 			defer func() {
 				if r := recover(); r != nil {
 					out = strings.Join(append(append([]string{}, log...), "->panic"), " ")
@@ -296,6 +308,17 @@ func c18Run(line string) string {
 				var t c17Target
 				r := network.APIMakePostJSONBody[*c17Body, c17Target](api, "x")(nil, &c17Body{A: "a"}, &t).Eval()
 				resp, err = r.Response, r.Err
+			case "CANCELLED":
+				// a request whose context is done already: net/http still hands it to the RoundTripper, the chain runs as for any request
+				ctx, cancel := context.WithCancel(context.Background())
+				cancel()
+				take(sh.DoNewRequest(ctx, nil, "GET", url))
+			case "EXPIRED":
+				saved := sh.TimeoutMillisecond
+				sh.TimeoutMillisecond = 1 // (used as nanoseconds by GetContextTimeout: expires at once)
+				time.Sleep(20 * time.Microsecond)
+				take(sh.Get(url))
+				sh.TimeoutMillisecond = saved
 			case "CLIENT":
 				rq, _ := http.NewRequest("GET", url, nil)
 				resp, err = sh.GetHTTPClient().Do(rq)
@@ -332,7 +355,7 @@ func c18Run(line string) string {
 	return strings.Join(outs, " | ")
 }
 
-var c18Verbs = []string{"GET", "HEAD", "OPTIONS", "DELETE", "POST", "PUT", "PATCH", "DO", "API", "CLIENT", "APIDEL", "APIPOST"}
+var c18Verbs = []string{"GET", "HEAD", "OPTIONS", "DELETE", "POST", "PUT", "PATCH", "DO", "API", "CLIENT", "APIDEL", "APIPOST", "CANCELLED", "EXPIRED"}
 var c18Statuses = []string{"200", "200", "201", "204", "304", "401", "404", "429", "500", "503"}
 
 func c18Gen(tier string, rng *rand.Rand, emit func(string)) map[string]interface{} {
@@ -393,6 +416,11 @@ func c18Gen(tier string, rng *rand.Rand, emit func(string)) map[string]interface
 					}
 					emit("clients=s0,n,d,s0 fail=" + f + " kind=" + kind + " tfail=" + tf + " st=" + c18Statuses[(directed)%len(c18Statuses)] + " new=c0:0,1,2,3: " + sets + "req " + v + " ; req " + v)
 					directed++
+					if si == 0 {
+						// the same with interceptor 0 / 2 / 3 issuing a request of its own through the same instance (overlapping requests)
+						emit("clients=s0,n,d,s0 nest=" + strconv.Itoa([]int{0, 2, 3}[directed%3]) + " fail=" + f + " kind=" + kind + " tfail=" + tf + " st=200 new=c0:0,1,2,3: req " + v + " ; rem 1 ; req " + v)
+						directed++
+					}
 				}
 			}
 		}
@@ -503,7 +531,11 @@ func c18Gen(tier string, rng *rand.Rand, emit func(string)) map[string]interface
 		}
 		nInst := 1
 		instClient := []int{0} // the pool client an instance owns (-1: its own fresh client)
-		head := "clients=" + strings.Join(cl, ",") + " fail=" + fail + " defs=" + defs + " kind=" + c17ErrKinds[rng.Intn(len(c17ErrKinds))] + " tfail=" + tf +
+		nestTok := ""
+		if rng.Intn(5) == 0 {
+			nestTok = " nest=" + strconv.Itoa(rng.Intn(6))
+		}
+		head := "clients=" + strings.Join(cl, ",") + nestTok + " fail=" + fail + " defs=" + defs + " kind=" + c17ErrKinds[rng.Intn(len(c17ErrKinds))] + " tfail=" + tf +
 			" st=" + c18Statuses[rng.Intn(len(c18Statuses))] + " new=" + newSpec + ": "
 		var ops []string
 		book, sets := 0, 0
